@@ -1,0 +1,16 @@
+//go:build verif
+
+package types
+
+// This file exists only under the "verif" build tag. It exposes the multiproof
+// helpers to the verification harness in /verif. It adds no behaviour: every
+// function forwards to the unexported original.
+
+// VerifMultiproofSize forwards to multiproofSize.
+func VerifMultiproofSize(txns []V2Transaction) int { return multiproofSize(txns) }
+
+// VerifComputeMultiproof forwards to computeMultiproof.
+func VerifComputeMultiproof(txns []V2Transaction) []Hash256 { return computeMultiproof(txns) }
+
+// VerifExpandMultiproof forwards to expandMultiproof.
+func VerifExpandMultiproof(txns []V2Transaction, proof []Hash256) { expandMultiproof(txns, proof) }
